@@ -64,12 +64,11 @@ def _fx(x):
 
 def _configs(tier):
     quick = [
-        (3, 1, 1, 0.5, 0.8), (3, 0, 1, 1.5, 0.4), (3, 1, 0, 0.3, 2.0), (3, 0, 0, 1.0, 0.6),
-        (2, 1, 1, 0.7, 0.2), (2, 0, 0, 0.9, 1.3),
+        (3, 1, 1, 0.5, 0.8), (3, 0, 1, 1.5, 0.4), (3, 1, 0, 0.3, 2.0), (2, 0, 0, 0.9, 1.3),
     ]
     if tier == "quick":
         return quick
-    more = []
+    more = [(3, 0, 0, 1.0, 0.6), (2, 1, 1, 0.7, 0.2)]
     for N in (2, 3, 4):
         for kt in (0, 1):
             for ko in (0, 1):
